@@ -92,7 +92,7 @@ def run(ctx: core.Ctx):
             ctx.finding(f"infeasible-design", f"{g}/{cfg['pipe']}/{cfg['flow_type']}: returned {r['nbh']} x {r['H']:.3f} m misses the limits by {ea:.4g} K when re-simulated (tool pipeline)",
                         {"cfg": r["cfg"], "loads": {"profile": cfg["profile"], "scale": cfg["scale"]}, "nbh": r["nbh"], "H": r["H"], "oracle_a": r["oracle_a"], "replay": rps[i]})
         elif eb > 1e-3:
-            if eb <= 0.1:
+            if eb <= 0.5:
                 ctx.finding("F15-rebuilt-at-returned-height", f"{g}: {eb:.4g} K over the limit when hybrid load and g-function are rebuilt at the returned height (tool pipeline: {ea:.2g})",
                             {"cfg": r["cfg"], "oracle_a": r["oracle_a"], "oracle_b": r["oracle_b"]})
             else:
